@@ -96,13 +96,14 @@ def _txt(pair):
     return f"({pair[0]}|{pair[1]})"
 
 
-def _call(manager, batch, multi):
-    """batch: list of (key, (b, a)); returns dict(rows=..., exc=..., leftover=...)"""
+def _call(manager, batch, multi, before=None):
+    """batch: list of (key, (b, a)); before: children that existed before the history; returns dict(rows=, exc=, leftover=)"""
     qd = {}
     for k, pair in batch:
         qd[k] = _mk(pair)
-    before = _proc_children()
-    before_active = {c.pid for c in mp.active_children()}
+    if before is None:
+        before = _proc_children(), {c.pid for c in mp.active_children()}
+    before, before_active = before
     old = _allow_children() if multi else None
     out = {"rows": None, "exc": None, "leftover": []}
     try:
@@ -249,9 +250,10 @@ def _run_history(sig, conds, system, pm, weakly, history, ref=None):
     found = []
     evals = 0
     seen = {}
+    before = _proc_children(), {c.pid for c in mp.active_children()}
     for ci, call in enumerate(history):
         batch = [(k, tuple(p)) for k, p in call["queries"]]
-        got = _call(manager, batch, call["multi"])
+        got = _call(manager, batch, call["multi"], before)
         evals += 1
         kind, disc, carve = _judge_call(batch, got, ref)
         if kind:
@@ -359,13 +361,20 @@ def _pool_for(rng, sig, conds):
 def run(tier, seed):
     rng = random.Random(seed)
     thorough = tier == "thorough"
-    n_bases = 120 if thorough else 22
+    from inference.consistency_sat import consistency
+
+    n_bases = 100 if thorough else 16
     par_every = 2 if thorough else 4
     cases = []
     bases = [(BIRDS_SIG, dict(BIRDS), list(BIRDS_POOL), True)]
-    for i in range(n_bases):
+    skipped = 0
+    while len(bases) <= n_bases and skipped < 50 * n_bases:
         sig, conds = s3_base(rng, consts=0.06)
-        bases.append((sig, texts_of(conds), _pool_for(rng, sig, conds), i % par_every == 0))
+        # bases every mode refuses are skipped here (the per-mode refusal is detected again in the worker)
+        if consistency(BeliefBase(list(sig), dict(conds), "c13"), "z3", True)[0] is False:
+            skipped += 1
+            continue
+        bases.append((sig, texts_of(conds), _pool_for(rng, sig, conds), len(bases) % par_every == 0))
     for sig, ctexts, pool, par in bases:
         for weakly in (False, True):
             for system, pm in CONFIGS:
@@ -394,6 +403,7 @@ def run(tier, seed):
     ]
     res["extra"] = {
         "cases": res["cases"],
+        "bases_skipped_as_inconsistent": skipped,
         "carved_out_duplicate_texts": sum(1 for v in vs if v.get("carve_out") == "duplicate-texts"),
         "other_violations": sum(1 for v in vs if not v.get("carve_out")),
     }
